@@ -15,6 +15,7 @@ def parseOp : List String → Option Op
   | ["reopen"] => some .reopen
   | ["capp", b, k] => do some (.crashAppend (← hexDecode b) (← k.toNat?))
   | ["cadv", k] => do some (.crashAdv (← k.toNat?))
+  | ["cseg", b, k] => do some (.crashSeg (← hexDecode b) (← k.toNat?))
   | ["stat"] => some .stat
   | _ => none
 
@@ -70,7 +71,7 @@ def footerLike : Ans → Bool
 def opTag : Op → String
   | .openQ _ _ => "open" | .append _ => "append" | .cur => "cur" | .adv => "adv"
   | .scan _ => "scan" | .reopen => "reopen" | .crashAppend _ _ => "crash-append"
-  | .crashAdv _ => "crash-adv" | .stat => "stat"
+  | .crashAdv _ => "crash-adv" | .crashSeg _ _ => "crash-newseg" | .stat => "stat"
 
 def dedup (xs : List String) : List String :=
   xs.foldl (fun acc x => if acc.contains x then acc else acc ++ [x]) []
@@ -84,7 +85,7 @@ def oracle (obs : List (List String × String)) : Verdict :=
   | some oas =>
     let tags := dedup (oas.map (fun oa => opTag oa.1) ++
       oas.filterMap (fun oa => match oa.2 with
-        | .crashed _ _ _ 0 => some (if footerLike oa.2 then "torn:footer-like" else "torn:repaired")
+        | .crashed ok _ _ 0 => some (if !ok then "torn:unopenable" else if footerLike oa.2 then "torn:footer-like" else "torn:repaired")
         | .crashed _ _ _ 1 => some "torn:absent"
         | .crashed _ _ _ 2 => some "torn:complete"
         | .full => some "full"
@@ -92,7 +93,7 @@ def oracle (obs : List (List String × String)) : Verdict :=
         | _ => none) ++
       (if oas.any (fun oa => match oa.2 with | .stat n _ _ _ => n ≥ 2 | _ => false) then ["multi-segment"] else []))
     let nt := oas.any fun oa => match oa.1 with
-      | .reopen | .crashAppend _ _ | .crashAdv _ | .scan _ => true
+      | .reopen | .crashAppend _ _ | .crashAdv _ | .crashSeg _ _ | .scan _ => true
       | _ => false
     if Spec.C26.holdsOn oas then { ok := true, nontrivial := nt, tags := tags }
     else
@@ -100,7 +101,11 @@ def oracle (obs : List (List String × String)) : Verdict :=
       let i := (Spec.C26.firstFail none rest 0).getD 0
       let upto := rest.take (i + 1)
       let sig :=
-        match upto.find? (fun oa => footerLike oa.2) with
+        match rest[i]? with
+        | some (.crashSeg _ _, .crashed false sz _ _) =>
+          if sz < 8 then "torn-new-segment-unopenable" else "not-fifo-at-least-once"
+        | _ =>
+        match upto.find? (fun (oa : Op × Ans) => match oa.1 with | Op.crashSeg _ _ => false | _ => footerLike oa.2) with
         | some (.crashAdv _, _) => "torn-advance-footer-misread"
         | some _ => "torn-append-footer-misread"
         | none => "not-fifo-at-least-once"
